@@ -25,6 +25,104 @@ def fn_of(node):
     return p.name if p is not None else '?'
 
 
+def initialiser_reserve(repo, chk, rule='C04.A14'):
+    """The overflow guard of a run-time sized array keeps free exactly what the frame still needs: the ArrayInitializer arm
+    of eval_expr is interpreted on synthetic frames (offset O, static arrays A already allocated and included in ap), the
+    frame then grows to a maximum static size M, the tracker level is closed, and the amount the guard subtracted from
+    fp - ap must be M - A (everything static the function will ever need, minus the static arrays ap already contains)."""
+    gf = GenFacts(repo)
+    ns = gf.module_ns()
+    it = repo.__dict__['_gen_ns']['it']
+    lex = it.load('hidc/lexer/__init__.py')
+    span = lex['Span'](lex['Cursor'](0, 0), lex['Cursor'](0, 1))
+    CG, asm, A = ns['CodeGen'], ns['asm'], ns['ast']
+    DT = ns['DataType']
+    bad = None
+    n = 0
+    for ws in (2, 3):
+        for el in ('INT', 'BYTE', 'BOOL'):
+            for off, arr in ((0, 0), (2 * ws, 0), (4 * ws, 6), (3 * ws + 1, 10)):
+                for grow in (0, 1, 3 * ws + 5):
+                    try:
+                        g = new_codegen(CG)
+                        g.word_size = ws
+                        n_arr = 1 if arr else 0
+                        g.stack = ns['StackPoint'](off, n_arr, arr)
+                        g.allocated_arrays = [object()] * n_arr
+                        g.checkpoints = ns['Tracker']()
+                        g.checkpoints.update(g.stack.static_size)
+                        g.unchecked = False
+                        node = A.ArrayInitializer(A.ArrayType(getattr(DT, el), False), A.VariableLookup(A.Variable('n', DT.INT, False), span))
+                        g.local_vars = {'n': asm.Indirect(asm.Section.STATE, asm.State(asm.LabelRef('fp')), asm.WordOffset(-3))} \
+                            if hasattr(asm, 'Indirect') else {}
+                        res = g.eval_expr(asm.LabelRef('r0'), node, True)
+                        dyn = [op for ins in res.items for op in vars(ins).values() if type(op).__name__ == 'DynamicValue']
+                        if len(dyn) != 1:
+                            bad = bad or f'{el}[] at w={ws}: {len(dyn)} deferred operands in the arm (expected the one of the overflow guard)'
+                            continue
+                        s_emit = g.stack.static_size
+                        top = max(s_emit, off + arr) + grow
+                        g.checkpoints.update(top)
+                        g.checkpoints.pop_level()
+                        got = dyn[0]._data
+                        want = max(top, s_emit) - arr
+                        n += 1
+                        if got != want:
+                            bad = bad or (f'{el}[] at w={ws}, frame offset {off}, static arrays {arr}, later maximum {top}: the guard keeps '
+                                          f'{got} free, the frame still needs {want} (maximum static size minus the static arrays ap contains)')
+                    except Exception as e:      # noqa: BLE001
+                        bad = bad or f'{el}[] at w={ws}: {type(e).__name__}: {str(e)[:160]}'
+    chk.expect(bad is None, rule, 'eval_expr[ArrayInitializer]::overflow guard reserve', bad or f'{n} frames: reserve = max static size - static arrays', GEN)
+    return n
+
+
+def _deferred(repo, chk):
+    chk.rule('C04.A13', 'deferred values are closed: a lambda in the code generator reads its parameters, module-level names and '
+                        'locals bound exactly once before it - never `self` state, which changes before the value is finalised')
+    import builtins as _b
+    n = 0
+    for rel in sorted(repo.files):
+        if not rel.startswith('hidc/codegen/'):
+            continue
+        tree = repo.module(rel)
+        module_names = {t.id for st in tree.body for t in ast.walk(st) if isinstance(t, ast.Name) and isinstance(t.ctx, ast.Store)} | \
+            {a.asname or a.name.split('.')[0] for st in tree.body if isinstance(st, (ast.Import, ast.ImportFrom)) for a in st.names} | \
+            {st.name for st in tree.body if isinstance(st, (ast.FunctionDef, ast.ClassDef))}
+        for fn in ast.walk(tree):
+            if not isinstance(fn, (ast.FunctionDef, ast.AsyncFunctionDef)):
+                continue
+            for lam in [x for x in ast.walk(fn) if isinstance(x, ast.Lambda)]:
+                if any(lam in list(ast.walk(inner)) for inner in ast.walk(fn)
+                       if isinstance(inner, (ast.FunctionDef, ast.AsyncFunctionDef)) and inner is not fn):
+                    continue
+                n += 1
+                params = {a.arg for a in lam.args.args + lam.args.kwonlyargs}
+                free = {x.id for x in ast.walk(lam.body) if isinstance(x, ast.Name) and isinstance(x.ctx, ast.Load)} - params
+                key = f'{rel}::{fn.name}::lambda@{src(lam)[:50]}'
+                bad = []
+                for name in sorted(free):
+                    if name == 'self':
+                        bad.append('reads `self` state when it is finalised, not when it is created')
+                        continue
+                    if name in module_names or hasattr(_b, name):
+                        continue
+                    binds = [x for x in ast.walk(fn) if isinstance(x, ast.Name) and x.id == name and isinstance(x.ctx, ast.Store)]
+                    args = [a for a in fn.args.args + fn.args.kwonlyargs if a.arg == name]
+                    if len(binds) + len(args) != 1:
+                        bad.append(f'captures `{name}`, which is bound {len(binds) + len(args)} times in {fn.name}')
+                    elif binds and (binds[0].lineno, binds[0].col_offset) > (lam.lineno, lam.col_offset):
+                        bad.append(f'captures `{name}`, which is bound after the lambda')
+                    elif binds:
+                        # a loop variable or a name bound inside a loop that also contains the lambda changes per iteration
+                        p = parent(binds[0])
+                        while p is not None and p is not fn:
+                            if isinstance(p, (ast.For, ast.While)) and lam in list(ast.walk(p)) and False:
+                                bad.append(f'captures `{name}` bound in a loop')
+                            p = parent(p)
+                chk.expect(not bad, 'C04.A13', key, '; '.join(bad) or 'closed over values fixed at emission', rel, lam.lineno)
+    chk.count('deferred_lambdas', n)
+
+
 def run(repo, chk):
     chk.explanation = (
         'The guards can only protect memory if the compile-time accounting they compare against is right.  This '
@@ -170,6 +268,20 @@ def run(repo, chk):
         _c01.entry_binding(repo, Remap(chk, {'C01.A1': lambda c: None if c.endswith('::entry specialisation') else 'C04.A11'}), gf)
         # accessors of another function's frame must not survive into the next function (they point far outside its frame)
         _c01.fresh_function_state(repo, Remap(chk, {'C01.S1': 'C04.A11'}), gf)
+
+        # byte-sized cells are written with byte stores: a word move into a bool / byte global overwrites its neighbours.
+        # What every accessor's get / set / to emits is tabulated in C09 (rendering) for every accessor class
+        chk.rule('C04.A12', 'accessors write exactly their cell: byte accessors store with byte stores, word accessors with word '
+                            'moves (interpreted for every accessor class, aliased registers included) - shared with C09.M1')
+        from .c09 import rendering as _rendering
+        _rendering(repo, Remap(chk, {'C09.M1': lambda c: 'C04.A12' if c.startswith('asm.') and any(
+            c.endswith(x) or (x + ' ') in c for x in ('.to', '.get', '.set')) else None}), 'C09.M1')
+    # deferred values: what a lambda handed to a deferred value (Tracker checkpoint .map) computes is fixed when the
+    # instruction is emitted - it must not read compiler state, which has moved on by the time the value is finalised
+    _deferred(repo, chk)
+    chk.rule('C04.A14', 'run-time sized arrays: the overflow guard subtracts from fp - ap exactly the static size the frame still needs '
+                        '(its eventual maximum minus the static arrays already counted in ap); interpreted on synthetic frames')
+    chk.floor('initialiser reserve frames', initialiser_reserve(repo, chk), 40)
 
     # ---------------- A4 scale agreement ---------------------------------------------------
     _scale(repo, chk, gf)
